@@ -778,6 +778,38 @@ func (m *Model) ruleVIEW(r *Results) {
 		visit(updFn)
 		return out
 	}
+	// every changed document that is read is handed to the mappers: the reader's row loop cannot
+	// come round to the next row without the hand-over unless reading the row failed
+	if sel != nil {
+		for _, sc := range m.scansOfSite(sel) {
+			var sinks []*ssa.BasicBlock
+			for _, b := range sc.Fn.Blocks {
+				for _, ins := range b.Instrs {
+					switch x := ins.(type) {
+					case *ssa.Send:
+						sinks = append(sinks, b)
+					case ssa.CallInstruction:
+						// or a direct call of the map function / a helper that sends
+						if callee := x.Common().StaticCallee(); callee != nil && m.inPkg(callee) && callee != sc.Fn {
+							for g := range m.reachableLocal(callee) {
+								for _, gb := range g.Blocks {
+									for _, gi := range gb.Instrs {
+										if _, isSend := gi.(*ssa.Send); isSend {
+											sinks = append(sinks, b)
+										}
+									}
+								}
+							}
+						}
+					}
+				}
+			}
+			if len(sinks) == 0 || !inCycle(sc.Call.Block()) {
+				continue
+			}
+			r.check(!m.rowCanBeSkipped(sc, sinks), rule, name+" / every changed document is mapped", m.instrPos(sc.Call), "a row that was read without error always reaches the mappers", "the reader can go on to the next row without handing the one it read to the map function although no error occurred: documents are left out of the index by a condition on their content (which the map function, not the reader, is to judge)")
+		}
+	}
 	if del == nil || sel == nil || ins == nil {
 		r.bad(rule, name+" / shape", m.instrPos(upd.Call), "the index-update transaction must delete the obsolete rows of changed documents (DELETE FROM mapped ... IN (SELECT ... documents)), re-map them (SELECT ... FROM documents) and insert the new rows; found delete=%v select=%v insert=%v in this closure", del != nil, sel != nil, ins != nil)
 	} else {
